@@ -537,12 +537,13 @@ int main(int argc, char **argv) {
       s2.insert(s2.end(), tr.begin(), tr.end());
       DecResult a = decode(en.bytes), b = decode(s2);
       ctx.count("trailing_decodes");
-      if (!a.ok) {
-        ctx.count("corpus_stream_does_not_decode_(C05_matter)");
+      if (a.ok != b.ok) {
+        // the decode status itself must not depend on what follows the stream
+        ctx.fail(std::string(a.ok ? "trailing-bytes-break-decoding" : "decoding-succeeds-only-with-trailing-bytes") + ":kind" + std::to_string(kind), en.name);
         return;
       }
-      if (!b.ok) {
-        ctx.fail("trailing-bytes-break-decoding:kind" + std::to_string(kind), en.name);
+      if (!a.ok) {
+        ctx.count("corpus_stream_does_not_decode_(C05_matter)");
         return;
       }
       if (ordered_digest(*a.pc, a.mesh) != ordered_digest(*b.pc, b.mesh)) ctx.fail("trailing-bytes-change-geometry:kind" + std::to_string(kind), en.name);
